@@ -198,7 +198,7 @@ fn one(round: bool, u: U, ty: TyK, n: i64, tod: i64) -> T {
 pub fn cold_list(round: bool) -> Vec<T> {
     let mut v = vec![];
     for u in UNITS {
-        for n in [0i64, 3, -1, 1, MIN_DAY as i64 + 10, MAX_DAY as i64 - 400, 11_016] {
+        for n in [0i64, 3, -1, 1, MIN_DAY as i64 + 10, MAX_DAY as i64 - 400, 11_016, 10_957, 10_958, 11_322, 11_323, -25_567] {
             v.push(one(round, u, TyK::Date, n, 0));
             v.push(one(round, u, TyK::Ts, n, 43_200_000_000));
             v.push(one(round, u, TyK::Ts, n, 0));
@@ -315,6 +315,33 @@ pub fn run(ctx: &Ctx, st: &mut Stats, round: bool) {
         }
     });
     cold_threads(st, "history: first call on a fresh thread", cold_list(round), check);
+    {
+        // first calls on fresh threads for dates people start from: other epochs (J2000, 1900, 1601, 1980, 2001 ...),
+        // turns of years and months around them, and a sample over the whole range
+        let mut v = vec![];
+        let mut rng = Rng::new(mix(ctx.seed, 0xC01D));
+        let mut days: Vec<i64> = vec![];
+        for (y, m, d) in [(2000, 1, 1), (2000, 1, 2), (2000, 12, 31), (2001, 1, 1), (1999, 12, 31), (1900, 1, 1), (1899, 12, 30), (1601, 1, 1), (1980, 1, 6), (1582, 10, 15), (1, 1, 1), (2038, 1, 19), (2026, 10, 3), (1858, 11, 17), (1904, 1, 1), (1968, 5, 24), (9999, 12, 31)] {
+            days.push(crate::cal::days_from_civil(y, m, d));
+        }
+        for _ in 0..ctx.tier.pick(4, 60, 600) {
+            days.push(rng.range_i64(MIN_DAY as i64, MAX_DAY as i64));
+        }
+        for &n in &days {
+            for u in UNITS {
+                let ty = *rng.pick(&[TyK::Date, TyK::Ts, TyK::Ora]);
+                let tod = match ty {
+                    TyK::Date => 0,
+                    TyK::Ts => *rng.pick(&[0i64, 1, 43_200_000_000, DAY_US - 1]),
+                    TyK::Ora => *rng.pick(&[0i64, 43_200_000_000, 86_399_000_000]),
+                };
+                v.push(one(round, u, ty, n, tod));
+            }
+        }
+        cold_threads(st, "history: first call on a fresh thread (other epochs, sampled dates)", v.clone(), check);
+        v.truncate(ctx.tier.pick(24, 600, 6000));
+        teardown_threads(st, "history: call from a thread-exit destructor registered before the first library call", v, check);
+    }
     if round {
         // bridge the excluded century-end years: last day of year ..99 against first day of year ..01
         st.stratum("Date: century monotonicity across excluded years", true);
